@@ -315,6 +315,11 @@ class _Synonyms(ast.NodeTransformer):
                 else:
                     args.append(a)
             n.args = args
+        # np.arange(N, 0, -1)  ->  N - np.arange(N)     (N, N-1, .., 1 either way; fresh integer arrays)
+        if f in ("np.arange", "numpy.arange") and len(n.args) == 3 and not n.keywords and isinstance(n.args[1], ast.Constant) and n.args[1].value == 0 \
+                and isinstance(n.args[2], ast.UnaryOp) and isinstance(n.args[2].op, ast.USub) and isinstance(n.args[2].operand, ast.Constant) and n.args[2].operand.value == 1 \
+                and not any(isinstance(x, (ast.Call,)) and U(x.func) not in ("len",) for x in ast.walk(n.args[0])):
+            return ast.copy_location(ast.BinOp(left=n.args[0], op=ast.Sub(), right=ast.Call(func=n.func, args=[copy.deepcopy(n.args[0])], keywords=[])), n)
         if isinstance(n.func, ast.Name) and n.func.id == "getattr" and len(n.args) == 2 and not n.keywords and isinstance(n.args[1], ast.Constant) \
                 and isinstance(n.args[1].value, str) and n.args[1].value.isidentifier():
             return ast.copy_location(ast.Attribute(value=n.args[0], attr=n.args[1].value, ctx=ast.Load()), n)
